@@ -120,6 +120,9 @@ def _check(args):
             val = np.asarray(term.value)
             numcols[v] = val.reshape(len(df), -1)
     want = dim_of(case["atoms"], nlev, width)
+    # exact integer arithmetic only when the numeric columns the code evaluated are integers too (an
+    # integer design built from non-integer columns is itself a symptom, decided in floating point)
+    integer = integer and all(rank.is_int_matrix(c) for c in numcols.values())
     if integer:
         xi = np.round(x).astype(np.int64)
         b = indicator_basis(df, terms, case["icpt"], nlev, {v: np.round(c).astype(np.int64) for v, c in numcols.items()})
